@@ -27,7 +27,7 @@ RULE = (
     "custom magic, export directory or XorEncoding; every version case. Distinct = distinct image bytes / argument tuple."
 )
 ASSUMPTIONS = [
-    "prepended bytes do not themselves contain a valid DOS header + machine field (random bytes do so with negligible probability)",
+    "prepended bytes do not themselves contain a complete DOS header whose e_lfanew leads to a Machine word and matching optional-header magic (random bytes do so with probability ~2^-48 per offset)",
     "sections follow the fixed-size optional header (SizeOfOptionalHeader 224/240), as in every beacon stage",
     "an export timestamp of 0 counts as 'not present'",
 ]
@@ -51,7 +51,8 @@ def check_case(case, ctx):
     if op == "image":
         par = case["params"]
         img, info = P.build_pe(_rng(case["seed"]), **{k: par[k] for k in ("arch", "lfanew", "magic_mz", "magic_pe", "compile_stamp",
-                                                                            "export_stamp", "nsec", "export_section", "data", "vsize_mode", "export_at_start")})
+                                                                            "export_stamp", "nsec", "export_section", "data", "vsize_mode", "export_at_start")},
+                                dos_mode=par.get("dos_mode", "random"))
         prepend, append = par["prepend"], par["append"]
         stage = prepend + img + append + par["nulpad"]
         if par["xorenc"]:
@@ -221,15 +222,26 @@ def gen_image(rng, version):
         cfg = tlv.short(1, 8) + tlv.short(2, 443) + tlv.S(rng.choice([20, 31, 37, 53, 59, 70, 74, 76, 78, 77, 60]), 3, b"abcd")
         data = P.filler(rng, rng.randrange(0, 300)) + P.rx1(cfg.ljust(4096, b"\0"), rng.choice([0x69, 0x2E, 0x00])) + P.filler(rng, rng.randrange(0, 100))
     prepend_len = rng.choice([0, 0, 1, 9, 64, rng.randrange(0, 901), 900])
-    prepend = b"\x90" * prepend_len if rng.random() < 0.5 else P.filler(rng, prepend_len)
+    r = rng.random()
+    if r < 0.4:
+        prepend = b"\x90" * prepend_len
+    elif r < 0.6:
+        # neutral instruction pairs as Malleable 'prepend' junk: add/sub rax,r8 (4c 01 c0 4c 29 c0), inc/dec, xchg ...
+        junk = [b"\x90", b"\x90", b"\x4c\x01\xc0\x4c\x29\xc0", b"\x40\x48", b"\x66\x90", b"\x50\x58", b"\x64\x86\xc0\x64\x86\xc0"[2:]]
+        prepend = b""
+        while len(prepend) < prepend_len:
+            prepend += rng.choice(junk)
+    else:
+        prepend = P.filler(rng, prepend_len)
     append = b""
     if rng.random() < 0.5:
         append = P.filler(rng, rng.choice([1, 4, 100, 1024, rng.randrange(1, 1025)])).rstrip(b"\0") or b"\x01"
         if append[-1] == 0:
             append = append[:-1] + b"\x01"
     return {
-        "arch": arch, "lfanew": rng.choice([64, 0x80, 0xF8, 1000, rng.randrange(64, 1001)]), "magic_mz": magic_mz, "magic_pe": magic_pe,
-        "compile_stamp": rng.choice([1, 2**32 - 1, rng.randrange(1, 2**32)]),
+        "arch": arch, "lfanew": rng.choice([64, 0x80, 0xF8, 1000, rng.randrange(64, 1001), rng.randrange(64, 260), rng.choice([172, 176, 183, 198, 0xE8])]),
+        "magic_mz": magic_mz, "magic_pe": magic_pe, "dos_mode": rng.choice(["random", "genuine"]),
+        "compile_stamp": rng.choice([1, 2**32 - 1, rng.randrange(1, 2**32), (rng.randrange(1, 2**16) << 16) | rng.choice([0x8664, 0x014C])]),
         "export_stamp": rng.choice([rng.choice(stamps), rng.choice(stamps), rng.choice(stamps) + rng.choice([-1, 1]), 1, 2**32 - 1, rng.randrange(1, 2**32)]),
         "nsec": nsec, "export_section": rng.choice([None, 0, 1, nsec - 1, rng.randrange(0, nsec)]), "data": data,
         "prepend": prepend, "append": append, "nulpad": bytes(rng.choice([0, 0, 3, 64])) if append else bytes(rng.choice([0, 0, 0, 16])),
